@@ -437,10 +437,18 @@ pub fn run_check(spec: &PropSpec, tier: Tier) -> i32 {
                                 if code == Some(crate::ctx::EXIT_STALL) {
                                     format!("this case did not return: the worker made no progress for 30 s, and again for 90 s when the shard was re-run in journal mode (stall detector, exit status 77); log tail:\n{}", logtail)
                                 } else {
+                                    // an allocation failure under the address-space cap aborts the worker
+                                    let oom = std::fs::read_to_string(&w.log)
+                                        .ok()
+                                        .and_then(|t| t.lines().find(|l| l.starts_with("memory allocation of ")).map(|l| l.to_string()));
                                     format!(
-                                        "worker process died ({}{}) while executing this case; log tail:\n{}",
+                                        "worker process died ({}{}{}) while executing this case; log tail:\n{}",
                                         st,
                                         if sanitizer_report { ", sanitizer report" } else { "" },
+                                        match &oom {
+                                            Some(l) => format!(", \"{}\": the case allocates without bound (address space of a worker is capped, VERIF_MEM_LIMIT_MB, default 4096)", l),
+                                            None => String::new(),
+                                        },
                                         logtail
                                     )
                                 },
